@@ -126,7 +126,7 @@ def oracle_fit(ctx, thorough):
     fam = rng.choice(['edmd', 'edmd', 'dmdc'])
     reg = rng.choice(['tikhonov', 'twonorm', 'nuclear'])
     alpha = rng.choice([0.0, 0.1, 1.0]) if reg == 'tikhonov' else rng.choice([0.1, 1.0])
-    ratio = 1.0 if reg == 'tikhonov' else rng.choice([0.5, 1.0])
+    ratio = rng.choice([1.0, 1.0, 0.4, 0.0]) if reg == 'tikhonov' else rng.choice([0.5, 1.0])   # documented: ignored for pure Tikhonov
     square = rng.random() < 0.4
     inv = rng.choice(INV)
     if fam == 'edmd':
